@@ -21,95 +21,8 @@ URIS = ['http://www.w3.org/2005/xpath-functions/collation/codepoint',
         'http://www.w3.org/2013/collation/UCA?lang=de;fallback=yes', 'http://www.w3.org/2013/collation/UCA?lang=de;fallback=no',
         'http://www.w3.org/2013/collation/UCA?lang=it_IT.UTF-8', 'http://www.w3.org/2013/collation/UCA', 'it_IT.UTF-8', 'nonsense',
         'http://www.w3.org/2013/collation/UCA?lang=en.US.UTF-8;fallback=no', 'http://www.w3.org/2013/collation/UCA?fallback=maybe']
-EXPRS = {'compare': 'compare($a, $b, $c)', 'contains': 'contains($a, $b, $c)', 'index-of': 'index-of(($a, $b), $b, $c)',
-         'distinct': 'distinct-values(($a, $b), $c)', 'sort': 'sort(($b, $a), $c)', 'deep-equal': 'deep-equal($a, $b, $c)',
-         'starts': 'starts-with($a, $b, $c)', 'max': 'max(($a, $b), $c)'}
-TOK = {k: P31.parse(v) for k, v in EXPRS.items()}
+from harness.locstub import FakeLocale, _history, EXPRS, TOK
 T_ENV = parse_all({'env': 'environment-variable($n)', 'all': 'available-environment-variables()'})
-
-
-class FakeLocale:
-    """stand-in for the `locale` module inside elementpath.collations: which locales are installed is decided by the solver"""
-    LC_COLLATE = locale.LC_COLLATE
-    LC_ALL = locale.LC_ALL
-    Error = locale.Error
-
-    def __init__(self, de, en_us, it, other, initial=(None, None)):
-        self.ok = dict(de=de, en_US=en_us, it_IT=it)
-        self.other = other
-        if initial[0] in self.ok:
-            self.ok[initial[0]] = True        # the locale the process is already in is necessarily installed
-        self.initial = initial
-        self.cur = initial
-        self.calls = 0
-
-    def _supported(self, value):
-        if value in ((None, None), 'C', 'POSIX', '', ('C', None)):
-            return True
-        name = value if isinstance(value, str) else value[0]
-        if not isinstance(name, str):
-            raise TypeError('locale name')
-        if name == self.initial[0]:
-            return True                       # the locale the process is already in is necessarily installed
-        for k, v in self.ok.items():
-            if name.startswith(k):
-                return v
-        return self.other
-
-    def getlocale(self, cat=None):
-        return self.cur
-
-    def setlocale(self, cat, value=None):
-        if value is None:
-            return self.cur
-        self.calls += 1
-        if isinstance(value, tuple) and len(value) != 2:
-            raise TypeError('Locale must be None, a string, or an iterable of two strings -- language code, encoding.')
-        if not self._supported(value):
-            raise locale.Error('unsupported locale setting')
-        if value in ((None, None), 'C'):
-            self.cur = (None, None)
-        elif isinstance(value, tuple):
-            self.cur = value
-        elif '.' in value:
-            self.cur = tuple(value.split('.', 1))      # getlocale() reports (language, encoding)
-        else:
-            self.cur = (value, 'UTF-8')
-        return value
-
-    def strcoll(self, a, b):
-        return (a > b) - (a < b)
-
-    def strxfrm(self, a):
-        return a
-
-
-def _history(key1, uri1, key2, uri2, de, en_us, it, other, initial=(None, None)):
-    fake = FakeLocale(de, en_us, it, other, initial)
-    saved = coll.locale
-    coll.locale = fake
-    env_before = dict(os.environ)
-    try:
-        outs = []
-        for key, uri in ((key1, uri1), (key2, uri2)):
-            try:
-                outs.append(L(TOK[key].evaluate(XPathContext(item=1, variables={'a': 'x', 'b': 'y', 'c': uri}))))
-            except ElementPathError as e:
-                outs.append(err_code(e))
-            if coll._locale_collate_lock.locked() or fake.cur != initial:
-                return False
-        # the second evaluation alone, on a fresh stub with the same configuration, gives the same answer
-        fake2 = FakeLocale(de, en_us, it, other, initial)
-        coll.locale = fake2
-        try:
-            alone = L(TOK[key2].evaluate(XPathContext(item=1, variables={'a': 'x', 'b': 'y', 'c': uri2})))
-        except ElementPathError as e:
-            alone = err_code(e)
-        return alone == outs[1] and dict(os.environ) == env_before
-    finally:
-        coll.locale = saved
-        if coll._locale_collate_lock.locked():
-            coll._locale_collate_lock.release()
 
 
 _SRC = '''
